@@ -208,6 +208,23 @@ func ownCases() (out []mcase) {
 			})
 			add(kind, "acc-participant-is-victim", "M", false, func(sc *mScene) wire.Msg { return ownAcc(kind, ownPID, sc.V.Addr, mFixedID(0x71)) })
 		}
+		if kind != "sub" {
+			out = append(out, mcase{Name: "own-" + kind + "/acc-participant-empty-then-garbage-sig0", Cat: "own", Sender: "M", Mut: true, Own: kind, Pts: ownPoints[kind],
+				Build: func(sc *mScene) wire.Msg {
+					return ownAcc(kind, ownPID, map[wallet.BackendID]wallet.Address{}, mFixedID(0x71))
+				},
+				Follow: func(sc *mScene) []*wire.Envelope {
+					// the victim's own version-0 signature names the id of the channel it derived
+					for i := len(sc.w.Bus.Sent) - 1; i >= 0; i-- {
+						r := sc.w.Bus.Sent[i]
+						if acc, ok := r.Msg.(*client.ChannelUpdateAccMsg); ok && r.From == sc.V.Idx && acc.Version == 0 {
+							return []*wire.Envelope{{Sender: sc.M.WireID, Recipient: sc.V.WireID,
+								Msg: &client.ChannelUpdateAccMsg{ChannelID: acc.ChannelID, Version: 0, Sig: garbageSig()}}}
+						}
+					}
+					return nil
+				}})
+		}
 		add(kind, "rej", "M", false, func(*mScene) wire.Msg { return &client.ChannelProposalRejMsg{ProposalID: ownPID, Reason: "no"} })
 		add(kind, "rej-wrong-proposal-id", "M", false, func(*mScene) wire.Msg {
 			return &client.ChannelProposalRejMsg{ProposalID: mFixedID(0xD2), Reason: "no"}
@@ -573,6 +590,33 @@ func hubPairCases() (out []mcase) {
 	vupd("by-bob-sent-by-alice", accB, 1, false, asM)
 	vupd("by-bob-sent-by-stranger", accB, 1, false, asS)
 	vupd("by-alice-actor-bob", accM, 1, false, asM)
+	// (A5) a virtual channel proposal that names as the receiver's parent the virtual channel the hub merely holds
+	add("vprop-on-held-virtual", true, func(sc *mScene) []*wire.Envelope {
+		if sc.B == nil {
+			return nil
+		}
+		p, err := client.NewVirtualChannelProposal(60, sc.M.Addr, mAlloc(sc.w.Asset, 1, 1),
+			[]map[wallet.BackendID]wire.Address{sc.M.WireID, sc.V.WireID},
+			[]channel.ID{mFixedID(0x69), sc.hubPairParams().ID()}, [][]channel.Index{{0, 1}, {1, 0}}, client.WithNonce(mFixedID(0x54)))
+		if err != nil {
+			panic("harness: " + err.Error())
+		}
+		p.ProposalID = mFixedID(0xC4)
+		return []*wire.Envelope{{Sender: sc.M.WireID, Recipient: sc.V.WireID, Msg: p}}
+	})
+	// if the victim accepted, it has published its version-0 signature of the new channel: M answers with its
+	// own, so that the opening proceeds to the funding of the new channel out of the held virtual channel
+	out[len(out)-1].Follow = func(sc *mScene) []*wire.Envelope {
+		for i := len(sc.w.Bus.Sent) - 1; i >= 0; i-- {
+			r := sc.w.Bus.Sent[i]
+			if acc, ok := r.Msg.(*client.ChannelUpdateAccMsg); ok && r.From == sc.V.Idx && acc.Version == 0 && acc.ChannelID != sc.hubPairParams().ID() {
+				st := &channel.State{ID: acc.ChannelID, Version: 0, App: channel.NoApp(), Data: channel.NoData(), Allocation: *mAlloc(sc.w.Asset, 1, 1)}
+				return []*wire.Envelope{{Sender: sc.M.WireID, Recipient: sc.V.WireID,
+					Msg: &client.ChannelUpdateAccMsg{ChannelID: st.ID, Version: 0, Sig: sc.sign("M", st)}}}
+			}
+		}
+		return nil
+	}
 	add("update-virtual-id-from-peer", true, func(sc *mScene) []*wire.Envelope { return sc.hubPairProbe(partyIdent(sc.M)) })
 	add("update-virtual-id-from-stranger", true, func(sc *mScene) []*wire.Envelope { return sc.hubPairProbe(sc.S) })
 	return out
@@ -758,7 +802,7 @@ func (sc *mScene) splitFundRun(obs *msgsObs, member string) (crafts []mCrafted) 
 
 // ---- C12: M never completes the opening, the funding update arrives later
 
-var halfOpenMembers = []string{"fund-matching", "fund-matching-relayed-by-stranger", "fund-other-amount", "nothing"}
+var halfOpenMembers = []string{"fund-matching-early", "fund-matching", "fund-matching-relayed-by-stranger", "fund-other-amount", "nothing"}
 
 // halfOpenRun: M proposes a sub-channel (2:4), the victim accepts and publishes its version-0
 // signature, M never sends its own; 35 s later (the victim's Accept has failed after its 30 s) the
@@ -773,11 +817,13 @@ func (sc *mScene) halfOpenRun(obs *msgsObs, member string) {
 		it.NotExpr = "the victim did not accept the sub-channel proposal"
 		return
 	}
-	vsched.Sleep(35 * time.Second)
+	if member != "fund-matching-early" { // (early: the funding update arrives while the victim still waits for M's signature)
+		vsched.Sleep(35 * time.Second)
+	}
 	var up *client.ChannelUpdateMsg
 	sender := sc.M.WireID
 	switch member {
-	case "fund-matching":
+	case "fund-matching", "fund-matching-early":
 		up = sc.subFunding(init.ID, 6, 2, 4)
 	case "fund-matching-relayed-by-stranger":
 		up, sender = sc.subFunding(init.ID, 6, 2, 4), sc.S.Wire
@@ -795,6 +841,53 @@ func (sc *mScene) halfOpenRun(obs *msgsObs, member string) {
 	if err := sc.w.Bus.Inject(env, false); err != nil {
 		panic("harness: inject: " + err.Error())
 	}
+}
+
+// ---------------------------------------------------------------- (A1) the peer at sub-channel index 1 finalises and withdraws itself
+
+// a1Cases (point sub-v0: the victim is index 0 of the parent and of the sub-channel): M, index 1 of
+// the sub-channel, proposes the final sub-channel state; the victim's handler accepts; then M sends the
+// matching withdrawal update of the parent itself (by the protocol index 0 would propose it).
+func a1Cases() (out []mcase) {
+	add := func(name string, envs func(sc *mScene) []*wire.Envelope) {
+		out = append(out, mcase{Name: "a1/" + name, Cat: "a1", Sender: "M", Mut: true, Pts: []string{"sub-v0"}, Envs: envs, Build: func(*mScene) wire.Msg { return nil }})
+	}
+	fin := func(sc *mScene) *channel.State {
+		st := sc.signed(sc.vsubs[0])
+		st.Version++
+		st.IsFinal = true
+		// M (index 1) pays the victim 1
+		st.Balances[0][1].Sub(st.Balances[0][1], mBig(1))
+		st.Balances[0][0].Add(st.Balances[0][0], mBig(1))
+		return st
+	}
+	add("sub-final-by-peer", func(sc *mScene) []*wire.Envelope {
+		if len(sc.vsubs) == 0 {
+			return nil
+		}
+		st := fin(sc)
+		return []*wire.Envelope{{Sender: sc.M.WireID, Recipient: sc.V.WireID,
+			Msg: &client.ChannelUpdateMsg{ChannelUpdate: client.ChannelUpdate{State: st, ActorIdx: 1}, Sig: sc.sign("M", st)}}}
+	})
+	add("parent-withdrawal-by-peer", func(sc *mScene) []*wire.Envelope {
+		if len(sc.vsubs) == 0 {
+			return nil
+		}
+		sub := sc.signed(sc.vsubs[0]) // the final state, if the victim accepted it
+		st := sc.signed(sc.led)
+		st.Version++
+		rest, _, ok := mWithout(st.Locked, sub.ID)
+		if !ok {
+			return nil
+		}
+		st.Locked = rest
+		for p := range st.Balances[0] {
+			st.Balances[0][p].Add(st.Balances[0][p], sub.Balances[0][p])
+		}
+		return []*wire.Envelope{{Sender: sc.M.WireID, Recipient: sc.V.WireID,
+			Msg: &client.ChannelUpdateMsg{ChannelUpdate: client.ChannelUpdate{State: st, ActorIdx: 1}, Sig: sc.sign("M", st)}}}
+	})
+	return out
 }
 
 var _ = persistence.NonPersistRestorer
